@@ -525,6 +525,7 @@ func realMain() {
 	scs := scenarios(r.Thorough())
 	var tot shardResult
 	var per []string
+	r.JobName = func(j int) string { return fmt.Sprintf("scenario %v", scs[j]) }
 	r.Sharded(len(scs), func(j int) any { return explore(r, root, scs[j]) }, func(j int, raw json.RawMessage) {
 		var sr shardResult
 		if err := json.Unmarshal(raw, &sr); err != nil {
